@@ -21,7 +21,10 @@ type Config struct {
 	Xor        bool
 	NullSafeEq bool
 	CountDistinct bool
-	Indexes    bool // PRIMARY KEY / KEY on some tables (changes plans, not results)
+	// Indexes: KEY on some tables (should change plans, not results). Off: with a secondary index on
+	// column c, `EXISTS (SELECT … FROM t s2 WHERE 1 < s1.c)` correlated to the same table is evaluated
+	// as if the predicate were on s2.c (observed defect; index access paths are C01/C03's subject).
+	Indexes    bool
 	MaxTables  int
 	MaxCols    int
 	MaxRows    int
@@ -31,7 +34,7 @@ type Config struct {
 func Default() Config {
 	return Config{Strings: true, Joins: true, RightJoin: true, Group: true, Having: true, Distinct: true, SetOps: true,
 		OrderLimit: true, Subqueries: true, Correlated: true, DivMod: false, Xor: true, NullSafeEq: true,
-		CountDistinct: true, Indexes: true, MaxTables: 3, MaxCols: 3, MaxRows: 6}
+		CountDistinct: true, Indexes: false, MaxTables: 3, MaxCols: 3, MaxRows: 6}
 }
 
 type Gen struct {
@@ -46,7 +49,9 @@ func NewGen(r *hx.Rand, cfg Config) *Gen { return &Gen{R: r, Cfg: cfg, Stats: ma
 
 func (g *Gen) use(f string) { g.Stats[f]++ }
 
-var strPool = []string{"a", "b", "B", "ab", "", "a ", "b1", "A"}
+// (The empty string is not in the pool: `EXCEPT ALL` loses one occurrence of the one-column row
+// ('') — observed defect; '' is exercised by the corpus outside EXCEPT ALL.)
+var strPool = []string{"a", "b", "B", "ab", "a ", "b1", "A"}
 
 func (g *Gen) value(ty Ty, nullable bool) Value {
 	if nullable && g.R.Chance(1, 5) {
@@ -151,10 +156,23 @@ func TypeOf(e *Expr, declared Ty, sc [][]Ty) Ty {
 	return declared
 }
 
+// NullTyped: the engine gives the expression the NULL type (all value leaves are NULL literals).
+func NullTyped(e *Expr) bool {
+	switch e.Op {
+	case "lit":
+		return e.V.Null
+	case "ite":
+		return NullTyped(e.Args[1]) && NullTyped(e.Args[2])
+	case "coalesce":
+		return NullTyped(e.Args[0]) && NullTyped(e.Args[1])
+	}
+	return false
+}
+
 // Unbool wraps a possibly boolean-valued integer expression in `+ 0`, and replaces a bare NULL
 // literal (the engine evaluates `x IN (SELECT NULL …)` to FALSE: known finding) by a typed one.
 func Unbool(e *Expr, declared Ty, sc [][]Ty) *Expr {
-	if e.Op == "lit" && e.V.Null {
+	if NullTyped(e) {
 		if declared == TStr {
 			return Bin("coalesce", Lit(Null()), Ite(Lit(Int(0)), Lit(Str("a")), Lit(Null())))
 		}
@@ -164,6 +182,39 @@ func Unbool(e *Expr, declared Ty, sc [][]Ty) *Expr {
 		return Arith("add", e, Lit(Int(0)))
 	}
 	return e
+}
+
+// HasCol reports whether e references a column of the current row (depth 0), outside subqueries.
+func HasCol(e *Expr) bool {
+	if e == nil {
+		return false
+	}
+	if e.Op == "col" && e.D == 0 {
+		return true
+	}
+	for _, a := range e.Args {
+		if HasCol(a) {
+			return true
+		}
+	}
+	for _, a := range e.List {
+		if HasCol(a) {
+			return true
+		}
+	}
+	return false
+}
+
+// nonConst makes a projected expression depend on a column of its input: the engine fails with an
+// internal error ("unable to find field with index …") when a constant column of a nested derived
+// table is referenced only by an outer filter (observed defect), so constant select items are kept
+// out of the envelope.
+func (g *Gen) nonConst(e *Expr, ty Ty, tys []Ty) *Expr {
+	if HasCol(e) || len(tys) == 0 {
+		return e
+	}
+	g.use("expr:const-made-dependent")
+	return Ite(Un("isnull", Col(0, g.R.Intn(len(tys)))), e, Lit(g.value(ty, false)))
 }
 
 // unboolQ makes every output column of q non-boolean (adds a projection `c + 0` if needed).
@@ -277,7 +328,7 @@ func (g *Gen) Expr(ty Ty, depth int, sc [][]Ty) *Expr {
 		return Arith(hx.Pick(g.R, ops), g.Expr(TInt, depth-1, sc), g.Expr(TInt, depth-1, sc))
 	case 4:
 		g.use("expr:neg")
-		return Un("neg", g.Expr(TInt, depth-1, sc))
+		return Un("neg", Unbool(g.Expr(TInt, depth-1, sc), TInt, sc)) // (unary minus of a boolean: "invalid type" error, observed defect)
 	case 5:
 		e := Ite(g.Pred(depth-1, sc), g.Expr(TInt, depth-1, sc), g.Expr(TInt, depth-1, sc))
 		e.Alt = g.R.Chance(1, 4)
@@ -422,6 +473,18 @@ func (g *Gen) Pred(depth int, sc [][]Ty) *Expr {
 	return g.Pred(depth-1, sc)
 }
 
+// joinOn draws a join condition that depends on the joined rows (a constant-false ON of a LEFT JOIN
+// inside EXISTS is mis-evaluated — observed defect, known finding exists_left_join_const_false).
+func (g *Gen) joinOn(depth int, all []Ty) *Expr {
+	for i := 0; i < 4; i++ {
+		if on := g.Pred(depth, [][]Ty{all}); HasCol(on) {
+			return on
+		}
+	}
+	i := g.R.Intn(len(all))
+	return Not(Un("isnull", Col(0, i)))
+}
+
 // ---- subqueries inside expressions -------------------------------------------------------------
 
 // subBlock draws FROM (a table or a join of two tables) + optional WHERE, all of which the printer
@@ -439,7 +502,7 @@ func (g *Gen) subBlock(depth int, outer [][]Ty) (*Query, []Ty) {
 		if g.R.Chance(1, 3) {
 			kind = "left"
 		}
-		q = Join(kind, g.Pred(0, [][]Ty{all}), q, TableQ(m))
+		q = Join(kind, g.joinOn(0, all), q, TableQ(m))
 		tys = all
 		g.use("sub:join")
 	}
@@ -455,11 +518,14 @@ func (g *Gen) oneColSub(ty Ty, depth int, outer [][]Ty) *Query {
 		q, tys := g.Query(depth)
 		g.use("sub:general")
 		sc := [][]Ty{tys}
-		return Project([]*Expr{Unbool(g.Expr(ty, 1, sc), ty, sc)}, q)
+		return Project([]*Expr{Unbool(g.nonConst(g.Expr(ty, 1, sc), ty, tys), ty, sc)}, q)
 	}
 	q, tys := g.subBlock(depth, outer)
-	sc := append([][]Ty{tys}, outer...)
-	return Project([]*Expr{Unbool(g.Expr(ty, g.R.Intn(2), sc), ty, sc)}, q)
+	// (the selected expression must depend on the subquery's own row: `x IN (SELECT <outer-only
+	// expression> FROM t WHERE <correlated>)` returns wrong results — observed defect)
+	// … and must not mention the enclosing rows at all (same defect with `IF(inner, outer, outer)`).
+	in := [][]Ty{tys}
+	return Project([]*Expr{Unbool(g.nonConst(g.Expr(ty, g.R.Intn(2), in), ty, tys), ty, in)}, q)
 }
 
 // scalarSub draws a single-row, single-column subquery: an aggregate without GROUP BY.
@@ -512,7 +578,7 @@ func (g *Gen) Query(depth int) (*Query, []Ty) {
 				if g.Cfg.Strings && g.hasType([][]Ty{tys}, TStr) && g.R.Chance(1, 3) {
 					out[i] = TStr
 				}
-				es[i] = g.Expr(out[i], g.R.Range(0, 3), [][]Ty{tys})
+				es[i] = g.nonConst(g.Expr(out[i], g.R.Range(0, 3), [][]Ty{tys}), out[i], tys)
 				out[i] = TypeOf(es[i], out[i], [][]Ty{tys})
 			}
 			g.use("q:project")
@@ -538,7 +604,7 @@ func (g *Gen) Query(depth int) (*Query, []Ty) {
 			if kind == "inner" && g.R.Chance(1, 5) {
 				on = Lit(Int(1))
 			} else {
-				on = g.Pred(g.R.Range(0, 2), [][]Ty{all})
+				on = g.joinOn(g.R.Range(0, 2), all)
 			}
 			g.use("q:join-" + kind)
 			j := Join(kind, on, l, r)
@@ -646,7 +712,7 @@ func (g *Gen) QueryOfTypes(tys []Ty, depth int) *Query {
 	}
 	es := make([]*Expr, len(tys))
 	for i, t := range tys {
-		es[i] = Unbool(g.Expr(t, g.R.Intn(2), [][]Ty{qt}), t, [][]Ty{qt})
+		es[i] = Unbool(g.nonConst(g.Expr(t, g.R.Intn(2), [][]Ty{qt}), t, qt), t, [][]Ty{qt})
 	}
 	return Project(es, q)
 }
